@@ -1,4 +1,4 @@
-// native replay for the C16 move-text harness: uci_replay <side> <piece> <square of the moving piece> <encoded move>
+// native replay for the C16 move-text harness: uci_replay <side> <piece> <square of the moving piece> <encoded move> [castling rights]
 // puts the piece on an otherwise empty board (uci/parse_uci read only the side to move and the piece on the from-square),
 // prints the move, parses the text back and compares; also checks the text against the long-algebraic format.
 #include <cstdio>
@@ -21,6 +21,7 @@ int main(int argc, char** argv) {
     int side = atoi(argv[1]), pc = atoi(argv[2]), sq = atoi(argv[3]); Move mv = (Move)strtoul(argv[4], 0, 10);
     Position a("8/8/8/8/8/8/8/8 w - - 0 1");
     a.add_piece(Piece(pc), Square(sq)); a._current_side = Color(side);
+    if (argc > 5) a._castling_rights = Castling(atoi(argv[5]));
     std::string t = a.uci(mv);
     unsigned cs = (mv >> 15) & 3, from = mv & 63, to = (mv >> 6) & 63, pr = (mv >> 12) & 7;
     if (cs) { from = side ? 60 : 4; to = side ? (cs == 1 ? 62 : 58) : (cs == 1 ? 6 : 2); pr = 0; }
